@@ -2005,6 +2005,25 @@ impl PeerConnection {
                 let direction: TransceiverDirection = section.direction.into();
                 t.set_direction(direction);
 
+                // The answerer's RTX association (RFC 4588 `apt=`, RFC 5576 `ssrc-group:FID
+                // <primary> <rtx>`) arrives here when we were the offerer; without it the
+                // receiver would pass retransmissions on with the OSN still in front.
+                let fid: Option<(u32, Option<u32>)> = section.attributes.iter().find_map(|attr| {
+                    let val = attr.value.as_ref().filter(|_| attr.key == "ssrc-group")?;
+                    let mut parts = val.strip_prefix("FID")?.split_whitespace();
+                    let primary = parts.next()?.parse::<u32>().ok()?;
+                    Some((primary, parts.next().and_then(|r| r.parse::<u32>().ok())))
+                });
+                if let Some(rx) = t.receiver.lock().as_ref() {
+                    if let Some((_, Some(rtx))) = fid {
+                        rx.set_rtx_ssrc(rtx);
+                    }
+                    let rtx_apt = crate::rtx::extract_rtx_apt_map_from_attrs(&section.attributes);
+                    if !rtx_apt.is_empty() {
+                        rx.set_rtx_apt_map(rtx_apt);
+                    }
+                }
+
                 let mut ssrc = None;
                 for attr in &section.attributes {
                     if attr.key == "ssrc"
@@ -2012,6 +2031,8 @@ impl PeerConnection {
                         && let Some(val) = &attr.value
                         && let Some(ssrc_str) = val.split_whitespace().next()
                         && let Ok(parsed) = ssrc_str.parse::<u32>()
+                        // with a FID group only its primary counts (as for a remote offer)
+                        && fid.is_none_or(|(primary, _)| primary == parsed)
                     {
                         ssrc = Some(parsed);
                         break;
